@@ -80,6 +80,10 @@ func (e *concEnv) do(op string, g int) string {
 		a.AddRule(e.rule)
 		a.AddCheck(e.check)
 		a.AddPolicy(e.policy)
+		// every goroutine also evaluates expressions of its own (distinct regular expressions, string and set operators)
+		pats := []string{"^file[0-9]$", "^f.*2$", "le1$"}
+		rx, _ := parser.FromStringCheck(fmt.Sprintf(`check if resource($r), $r.matches("%s"), $r.starts_with("fi"), [1, 2, %d].contains(%d)`, pats[g%3], g%3+2, g%3+2))
+		a.AddCheck(rx)
 		v := classify(a.Authorize())
 		fs, err := a.Query(e.rule)
 		return fmt.Sprintf("%s %d %v", v, len(fs), err)
@@ -148,9 +152,10 @@ func runConc(c *ConcCase) (interface{}, error) {
 		env.tok = tok
 		// what each operation yields when it runs alone on this very token
 		alone := map[string]string{}
-		for _, op := range c.Ops {
-			if _, ok := alone[op]; !ok {
-				alone[op] = env.do(op, 0)
+		for g, op := range c.Ops {
+			k := fmt.Sprintf("%s/%d", op, g%3)
+			if _, ok := alone[k]; !ok {
+				alone[k] = env.do(op, g)
 			}
 		}
 		start := make(chan struct{})
@@ -161,10 +166,10 @@ func runConc(c *ConcCase) (interface{}, error) {
 				defer wg.Done()
 				<-start
 				got := env.do(op, g)
-				if got != alone[op] {
+				if want := alone[fmt.Sprintf("%s/%d", op, g%3)]; got != want {
 					mu.Lock()
 					if len(bad) < 5 {
-						bad = append(bad, fmt.Sprintf("goroutine %d (%s) got %q, alone it gets %q", g, op, trunc(got, 120), trunc(alone[op], 120)))
+						bad = append(bad, fmt.Sprintf("goroutine %d (%s) got %q, alone it gets %q", g, op, trunc(got, 120), trunc(want, 120)))
 					}
 					mu.Unlock()
 				}
